@@ -281,6 +281,26 @@ def sitesOf : List Oms → List V
   | [] => []
   | o :: rest => o.src :: (o :: rest).map (·.dst)
 
+/-! ### the disjointness oracle for one pair of requests (C12, completeness) -/
+
+/-- candidates of step 1: simple paths of at most 80 hops (`all_simple_paths(..., cutoff=80)`) -/
+def candPaths (g : Graph) (s t : V) : List (List V) := (simplePaths g s t).filter (fun p => p.length ≤ 81)
+
+structure Req where
+  s : V
+  t : V
+  inc : List V          -- `nodes_list` after clean-up (destination not yet appended)
+  strict : Bool         -- 'STRICT' in `loose_list`
+deriving Repr
+
+/-- step 4: a candidate is acceptable when it honours the include list, or when the list has only LOOSE hops -/
+def acceptable (r : Req) (p : List V) : Bool := r.inc.isSublist p || !r.strict
+
+/-- THE PAIR ORACLE: is there a pair of acceptable candidate routes without a common link (either direction)? -/
+def disjointOracle (g : Graph) (isRoadm : V → Bool) (r1 r2 : Req) : Bool :=
+  (candPaths g r1.s r1.t).any (fun p => acceptable r1 p &&
+    (candPaths g r2.s r2.t).any (fun q => acceptable r2 q && linkDisjointB isRoadm p q))
+
 /-! ### candidate selection of `compute_path_dsjctn`, steps 2-5, over abstract candidate ids
 
 A candidate path is identified by `(request index, path index)`; `dis r i r' j = true` ⇔ the implementation's test
